@@ -19,7 +19,7 @@ Definition status_200 (content : option bytes) : bool :=
       match parse_and_check_tl b RESPONSE_TYPE with
       | Err _ => false
       | Ok v => match parse_model (depth_of CR) CR false v with
-                | Ok (VUint 200 :: _) => true
+                | Ok (VUint n :: _) => n =? 200
                 | _ => false
                 end
       end
